@@ -95,15 +95,36 @@ Proof.
   apply in_map_iff in Hin. destruct Hin as [t0 [<- Ht0]]. simpl. eauto.
 Qed.
 
-(* one child of a rule with its parameter dictionary *)
+(* one child of a rule with its parameter dictionary.
+   kid_wf0: every child parameter is the image of a parent parameter OR is 0 on every object of
+   the child (then the emitted equation keeps the child's own variable free, which is harmless:
+   the child's series does not depend on it).  The second case is the one in which
+   EquivalencePathRule.constructor passes fixed_values = {k: 0} and in which a union rule has been
+   reversed whose parent tracks a statistic no child parameter accounts for.
+   kid_wf: the special case in which every child parameter is mapped to. *)
+Definition zero_on (c : Z) (cv : Z) : Prop :=
+  forall n t, In t (T c n) -> aget (combine (pars c) (fst t)) cv = 0.
+
+Definition kid_wf0 (ppars : list Z) (k : Z * list (Z * Z)) : Prop :=
+  class_wf (fst k) /\ NoDup (map fst (snd k)) /\ incl (map fst (snd k)) ppars /\
+  incl (map snd (snd k)) (pars (fst k)) /\
+  (forall cv, In cv (pars (fst k)) -> has_par (snd k) cv = true \/ zero_on (fst k) cv).
+
 Definition kid_wf (ppars : list Z) (k : Z * list (Z * Z)) : Prop :=
   class_wf (fst k) /\ NoDup (map fst (snd k)) /\ incl (map fst (snd k)) ppars /\
   incl (map snd (snd k)) (pars (fst k)) /\
   (forall cv, In cv (pars (fst k)) -> has_par (snd k) cv = true).
 
-Lemma kid_child_wf N ppars k : kid_wf ppars k -> child_wf (SN N) ppars pars k.
+Lemma kid_wf_wf0 ppars k : kid_wf ppars k -> kid_wf0 ppars k.
+Proof. intros [A [B [C [D E]]]]. split; [|split; [|split; [|split]]]; auto. Qed.
+
+Lemma kid_child_wf N ppars k : kid_wf0 ppars k -> child_wf (SN N) ppars pars k.
 Proof.
   intros [Wc [H1 [H2 [H3 H4]]]]. constructor; auto.
+  - intros cv Hcv. destruct (H4 cv Hcv) as [Hm|Hz]; [left; exact Hm|right].
+    intros t n c Ht Et. unfold SN, tbl in Ht. apply in_flat_map in Ht. destruct Ht as [n0 [_ Ht]].
+    apply in_map_iff in Ht. destruct Ht as [t0 [<- Ht0]]. simpl in Et. injection Et as _ <-.
+    exact (Hz n0 t0 Ht0).
   - apply Wc.
   - apply Wc.
   - intros t Ht. apply (tbl_shape N (fst k) t Wc Ht).
@@ -206,8 +227,8 @@ Proof. intros HF. induction HF as [|a b l l' H _ IH]; simpl; auto. rewrite H, IH
 
 (* Rule with a DisjointUnion constructor (also EquivalenceRule and EquivalencePathRule,
    whose constructor is a one-child DisjointUnion) *)
-Theorem union_equation_holds p kids N :
-  class_wf p -> Forall (kid_wf (pars p)) kids -> union_genuine p kids ->
+Theorem union_equation_holds0 p kids N :
+  class_wf p -> Forall (kid_wf0 (pars p)) kids -> union_genuine p kids ->
   match union_equation (cfun pars p) (map (cfun pars) (map fst kids)) (map snd kids) with
   | Ok lhs rhs => holds (SN N) O V N lhs rhs
   | _ => False
@@ -229,6 +250,17 @@ Proof.
     rewrite Z0. simpl. symmetry. apply psum_Forall2.
     eapply Forall2_weaken; [|apply Forall2_flip'; exact HPs].
     intros P k [_ HE]. apply HE.
+Qed.
+
+Theorem union_equation_holds p kids N :
+  class_wf p -> Forall (kid_wf (pars p)) kids -> union_genuine p kids ->
+  match union_equation (cfun pars p) (map (cfun pars) (map fst kids)) (map snd kids) with
+  | Ok lhs rhs => holds (SN N) O V N lhs rhs
+  | _ => False
+  end.
+Proof.
+  intros Wp Wk G. apply union_equation_holds0; auto.
+  eapply Forall_impl; [|exact Wk]. intros k. apply kid_wf_wf0.
 Qed.
 
 (* ------------------------------------------------------------ product *)
@@ -263,13 +295,15 @@ Qed.
 (* a child of a product: additionally no two parent parameters share a child parameter *)
 Definition pkid_wf (ppars : list Z) (k : Z * list (Z * Z)) : Prop :=
   kid_wf ppars k /\ NoDup (map snd (snd k)).
+Definition pkid_wf0 (ppars : list Z) (k : Z * list (Z * Z)) : Prop :=
+  kid_wf0 ppars k /\ NoDup (map snd (snd k)).
 
 Lemma Forall2_map_r {A B C} (P : A -> C -> Prop) (f : B -> C) l l' :
   Forall2 (fun a b => P a (f b)) l l' -> Forall2 P l (map f l').
 Proof. intros H. induction H; simpl; constructor; auto. Qed.
 
-Theorem product_equation_holds p kids N :
-  class_wf p -> Forall (pkid_wf (pars p)) kids -> product_genuine p kids N ->
+Theorem product_equation_holds0 p kids N :
+  class_wf p -> Forall (pkid_wf0 (pars p)) kids -> product_genuine p kids N ->
   match product_equation (cfun pars p) (map (cfun pars) (map fst kids)) (map snd kids) with
   | Ok lhs rhs => holds (SN N) O V N lhs rhs
   | _ => False
@@ -294,6 +328,17 @@ Proof.
   - intros m Hm. unfold SN at 1. rewrite (G m Hm). symmetry.
     apply (prod_left_congr Ps). apply Forall2_map_r. apply Forall2_flip'.
     eapply Forall2_weaken; [|exact HPs]. intros k P [_ HE]. exact HE.
+Qed.
+
+Theorem product_equation_holds p kids N :
+  class_wf p -> Forall (pkid_wf (pars p)) kids -> product_genuine p kids N ->
+  match product_equation (cfun pars p) (map (cfun pars) (map fst kids)) (map snd kids) with
+  | Ok lhs rhs => holds (SN N) O V N lhs rhs
+  | _ => False
+  end.
+Proof.
+  intros Wp Wk G. apply product_equation_holds0; auto.
+  eapply Forall_impl; [|exact Wk]. intros k [A B]. split; [apply kid_wf_wf0|]; auto.
 Qed.
 
 (* ------------------------------------------------------------ reverse rules *)
